@@ -42,7 +42,8 @@ def uniq(plan, prefix):
     for n, entry in enumerate(plan):
         act = list(entry['act'])
         if act[0] in ('pause', 'kill', 'fail', 'soon_ok', 'soon_raise'):
-            act = [act[0], '%s-%s%d' % (prefix, act[0], n)]
+            # (a text containing 'falsy' keeps that marker: it makes the exception built from it a falsy object)
+            act = [act[0], '%s-%s%s%d' % (prefix, 'falsy-' if 'falsy' in str(act[1]) else '', act[0], n)]
         elif act[0] == 'resume' and len(act) > 1 and act[1] is not None:
             act = ['resume', ['%s-rv%d' % (prefix, n)]]
         out.append({'at': entry['at'], 'act': act})
